@@ -106,7 +106,7 @@ def _split_label(label):
     return "\n".join(rest), out
 
 
-def replay_graph(rec, inits, edges, nodes, rng, max_states=None, rej_per_state=None):
+def replay_graph(rec, inits, edges, nodes, rng, max_states=None, rej_per_state=None, at_state=None, acc_only_paths=False):
     """for every (sampled) abstract state: build it along a shortest accepted path (recorded),
     mark it, and apply every accepted and (a sample of) the rejected outgoing transitions to
     deep copies of it.  Returns statistics."""
@@ -138,6 +138,10 @@ def replay_graph(rec, inits, edges, nodes, rng, max_states=None, rej_per_state=N
         s = new_system()
         for lab in path[st]:
             do_call(s, *label_to_call(*tlaval.parse_action(lab)))
+        if at_state:
+            at_state(s)
+        if acc_only_paths:
+            continue
         rec.mark(s)
         out = edges.get(rep[st], [])
         acc = [(l, d) for l, d in out if outof[d] == "ok"]
